@@ -48,7 +48,7 @@ fn main() {
     env.push(("PYTHONPATH".into(), "/repo/python".into()));
     let o = proc::run(&proc::Run {
         program: std::path::Path::new("python3"),
-        args: vec!["/verif/py/c18_python_api.py".into(), dump_path.display().to_string(), repo.dir.display().to_string(), proc::zerv_bin().display().to_string(), ctx.tier_name().into(), out_path.display().to_string()],
+        args: vec![format!("{}/py/c18_python_api.py", verif_root()), dump_path.display().to_string(), repo.dir.display().to_string(), proc::zerv_bin().display().to_string(), ctx.tier_name().into(), out_path.display().to_string()],
         stdin: None, env, cwd: Some(&repo.dir), timeout: std::time::Duration::from_secs(if ctx.quick() { 600 } else { 3000 }),
     }).unwrap_or_else(|e| machinery_error(&format!("cannot run python3: {e}")));
     if o.timed_out || o.status != 0 { machinery_error(&format!("python driver failed (exit {}): {}{}", o.status, truncate(&o.stdout_str(), 2000), truncate(&o.stderr_str(), 3000))); }
